@@ -350,7 +350,7 @@ class Analyzer:
         st.acc = frozenset(a for a in st.acc if a[1] != did)
 
     def kill_term(self, st, kind, key):
-        st.acc = frozenset(a for a in st.acc if not (a[0][0] == kind and a[0][1] == key))
+        st.acc = frozenset(a for a in st.acc if not ((a[0][0] == kind or (kind == 'cur' and a[0][0] == 'cnt')) and a[0][1] == key))
 
     def assign_int(self, st, ref, iv):
         self.kill_var(st, ref['d'])
@@ -628,6 +628,10 @@ class Analyzer:
                     if cn == 'strncmp' and other.get('k') == 'str' and n is not None:
                         need = min(n, len(other['bytes']) + 1)
                     ok = need is not None and av is not None and av[0] >= need
+                    nv = strip_casts(args[2])
+                    if need is None and nv.get('k') == 'ref' and pn[0] == 'cur' and pn[2] == 0 and (('cnt', pn[1], 0), nv['d']) in st.acc:
+                        ok = True
+                        need = nv['n']
                     self.site('BND1' if pn[0] == 'cur' else 'BND2', call,
                               '%s reads %s byte(s) of the input at %s' % (cn, need, expr_str(strip_casts(args[j]))[:40]), ok,
                               'proved avail >= %s' % (av[0] if av is not None and av[0] > NEG else 'nothing'),
@@ -803,6 +807,9 @@ class Analyzer:
             B = a[1]
             kk, var = a[2], a[3]
             if var is not None:
+                if op == '<=':
+                    # offset + v <= length: v bytes are readable at the cursor (can_read(buffer, v))
+                    st.acc = st.acc | {(('cnt', B, 0), var['d'])}
                 if op == '<':
                     st.acc = st.acc | {(('cur', B, 0), var['d'])}
                     iv = self.ieval(var, st)
